@@ -460,6 +460,50 @@ def _cvc5_job(job):
 # parent side
 
 
+def seeded_selftest(pid):
+    """Self-test of the check (thorough tier): every committed seeded change for this property
+    (/verif/seeded/<id>/patch.diff: a realistic defect from an independent author, confirmed to break
+    the property) is applied to a scratch copy of the tree under analysis, and the quick check must
+    report a violation there.  A seed that no longer applies to the current tree is skipped."""
+    import shutil
+    out = dict(kind='seeded-change self-test', seeds=[], lines=[], violations=[])
+    root = os.path.join(VERIF, 'seeded')
+    if not os.path.isdir(root):
+        return out
+    for sid in sorted(os.listdir(root)):
+        meta_p = os.path.join(root, sid, 'meta.json')
+        patch = os.path.join(root, sid, 'patch.diff')
+        if not (os.path.exists(meta_p) and os.path.exists(patch)):
+            continue
+        try:
+            meta = json.load(open(meta_p))
+        except Exception:
+            continue
+        caught_by = set((meta.get('check_result') or {}).keys()) | {meta.get('property')}
+        if pid not in caught_by:
+            continue
+        tmp = tempfile.mkdtemp(prefix='selftest_')
+        try:
+            shutil.copytree(os.path.join(loader.REPO, 'bridge_env'), os.path.join(tmp, 'bridge_env'))
+            r = subprocess.run(['git', 'apply', patch], cwd=tmp, capture_output=True, text=True)
+            if r.returncode != 0:
+                out['seeds'].append(dict(seed=sid, result='skipped: patch does not apply to this tree'))
+                continue
+            env = dict(os.environ, BRIDGE_ENV_REPO=tmp, VERIF_OUT=os.path.join(tmp, 'out'),
+                       VERIF_NO_SELFTEST='1')
+            c = subprocess.run([os.path.join(VERIF, 'check'), pid, '--tier', 'quick'], env=env,
+                               capture_output=True, text=True)
+            names = [ln.split('replays/')[-1] for ln in c.stdout.splitlines()
+                     if ln.startswith('VIOLATION')]
+            out['seeds'].append(dict(seed=sid, exit=c.returncode, reported=names[:4],
+                                     result='caught' if c.returncode == 1 else 'NOT CAUGHT'))
+            if c.returncode != 1:
+                out.setdefault('selftest_failures', []).append(sid)
+        finally:
+            shutil.rmtree(tmp, ignore_errors=True)
+    return out
+
+
 def units_for_property(reg, pid):
     units = []
     for q, c in reg.fns.items():
@@ -564,6 +608,8 @@ def run_property(pid, tier='quick', seed=0, extra_checks=None, modules=None, job
     if extra_checks:
         for fn in extra_checks:
             extra.append(fn(reg, tier, seed))
+    if tier == 'thorough' and not os.environ.get('VERIF_NO_SELFTEST'):
+        extra.append(seeded_selftest(pid))
     return finish(pid, tier, seed, reg, results, fuzz, cvc5_res, extra, t_start)
 
 
@@ -679,6 +725,10 @@ def finish(pid, tier, seed, reg, results, fuzz, cvc5_res, extra, t_start):
             vio_out.extend(ex_['violations'])
         n_obl += ex_.get('obligations', 0)
         n_dis += ex_.get('discharged', 0)
+    for ex_ in extra:
+        for sid in ex_.get('selftest_failures', []):
+            engine_errors.append(('self-test', f'the seeded change seeded/{sid} is not reported by '
+                                               f'this check any more'))
     if exit_code == 0:
         if engine_errors or disagreements or fuzz_errors:
             exit_code = 3
